@@ -1,12 +1,12 @@
-SPECIFICATION Spec
+SPECIFICATION GSpec
 CONSTANTS
- Fam = "devAmbig"
+ Fam = "gate"
  Cases <- FamCases
  DevMono = FALSE
  DevNoOrder = FALSE
  DevNoLinktype = FALSE
  DevFirstWins = FALSE
- DevAmbig = TRUE
+ DevAmbig = FALSE
  DevNoNonEdge = FALSE
  DevNoPattern = FALSE
  DevKeepRemoved = FALSE
@@ -16,8 +16,8 @@ CONSTANTS
  DevNoAtomResname = FALSE
  DevOrderedPairs = FALSE
  DevGateOnce = FALSE
- DevGateBuildOnly = FALSE
+ DevGateBuildOnly = TRUE
  DevMissingCache = FALSE
  DevDegree = FALSE
-INVARIANT FinalIsExpected
+INVARIANT GateIsExpected
 CHECK_DEADLOCK FALSE
